@@ -730,12 +730,26 @@ def defectClass (n : List Nat) : String :=
 def field (name : String) (fs : List String) : Option String :=
   fs.findSome? fun f => if f.startsWith (name ++ "=") then some (f.drop (name.length + 1)).toString else none
 
-def modelAnswer (k : Kind) (n n2 : List Nat) (rdEcho : String) : String :=
+/-- writer configuration marker of a request: none / `@xs` (cross-reference stream) / `@os`
+    (object streams + cross-reference stream, `WriterConfig::modern()`) -/
+inductive Cfg where
+  | classic | xs | os
+  deriving DecidableEq, Repr
+
+/-- `rdEcho`, `rdxEcho`, `rdoEcho`: the reader-stack fields are observed, not modelled.
+    `pgo` IS modelled: the page dictionary packed into an object stream by
+    `write_object_value_to_buffer` has the same bytes as the direct object written by
+    `write_object_value` (same sorted `<<\n/Key value\n>>` layout, same escaping, same object ids). -/
+def modelAnswer (k : Kind) (n n2 : List Nat) (cfg : Cfg) (rdEcho rdxEcho rdoEcho : String) : String :=
   if k.validated && !validName n then "err:InvalidStructure"
   else
     let page := ser (pageObj k n n2)
     let content := contentBytes k n n2
-    s!"pid={k.pageId} page={hexField page} content={hexField content} lp={libPageView page k.category} lc={libContentView content} rd={rdEcho}"
+    let base := s!"pid={k.pageId} page={hexField page} content={hexField content} lp={libPageView page k.category} lc={libContentView content} rd={rdEcho}"
+    match cfg with
+    | .classic => base
+    | .xs => base ++ s!" rdx={rdxEcho}"
+    | .os => base ++ s!" pgo={hexField page} rdo={rdoEcho}"
 
 def expectedRd (k : Kind) (n n2 : List Nat) : String :=
   match k.category with
@@ -747,7 +761,7 @@ def expectedLp (k : Kind) (n n2 : List Nat) : String :=
   | none => "ok"
   | some _ => showKeys (sortBytes (dedupKeys (expectedKeys k n n2)))
 
-def oracle (k : Kind) (n n2 : List Nat) (impl : String) : String :=
+def oracle (k : Kind) (n n2 : List Nat) (cfg : Cfg) (impl : String) : String :=
   if impl.startsWith "err:InvalidStructure" then
     -- the API refused the name: nothing is written, the property is respected
     (if k.validated then "ok" else "fail:unexpected-api-error")
@@ -758,12 +772,32 @@ def oracle (k : Kind) (n n2 : List Nat) (impl : String) : String :=
       match bytesOfHex? ph, bytesOfHex? ch with
       | some page, some content =>
         let cls := if k == .img2 then defectClass (n ++ n2) else defectClass n
+        -- the other writer configurations: the reader stack must see the user's names, and the
+        -- page dictionary cut out of the object stream must be the authored one for the
+        -- independent reader
+        let xsSites : List String :=
+          match cfg with
+          | .xs =>
+            (match field "rdx" fs with
+             | some rdx => if rdx != expectedRd k n n2 then ["lib-reader-xs"] else []
+             | none => ["xs-missing"])
+          | _ => []
+        let osSites : List String :=
+          match cfg with
+          | .os =>
+            (match (field "pgo" fs).bind bytesOfHex? with
+             | some pgo => (match specPageVerdict pgo k n n2 with | some s => [s ++ "-os"] | none => [])
+             | none => ["objstm-page-unreadable"]) ++
+            (match field "rdo" fs with
+             | some rdo => if rdo != expectedRd k n n2 then ["lib-reader-os"] else []
+             | none => ["os-missing"])
+          | _ => []
         let sites : List String :=
           (match specPageVerdict page k n n2 with | some s => [s] | none => []) ++
           (match specContentVerdict content k n n2 with | some s => [s] | none => []) ++
           (if lp != expectedLp k n n2 then ["lib-page"] else []) ++
           (if lc != showOps (expectedOps k n n2) then ["lib-content"] else []) ++
-          (if rd != expectedRd k n n2 then ["lib-reader"] else [])
+          (if rd != expectedRd k n n2 then ["lib-reader"] else []) ++ xsSites ++ osSites
         if sites.isEmpty then "ok" else "fail:" ++ cls ++ ":" ++ ",".intercalate sites
       | _, _ => "fail:unparsable-impl-answer"
     | _, _, _, _, _ => "fail:unparsable-impl-answer"
